@@ -37,6 +37,8 @@ pub struct Round {
     pub t_before: SystemTime,
     pub t_after: SystemTime,
     pub drops_moved: bool,
+    /// replies that arrived only after the sentinel (further traffic) was sent
+    pub late_replies: usize,
 }
 
 pub struct Driver {
@@ -78,6 +80,29 @@ impl Driver {
                 panic = Some(p);
             }
         }
+        // Quiescence WITHOUT further traffic: keep stepping (each step returns at once while the
+        // server reports a backlog, else after its 100 ms poll timeout) until every request that
+        // must be answered has been, bounded by what the backlog could legitimately need. Replies
+        // that show up only after the sentinel (= new traffic) were stranded.
+        let must = sent.iter().filter(|s| s.expect == Expect::Must).count();
+        let mut replies: Vec<Reply> = Vec::new();
+        let collect = |socks: &Vec<UdpSocket>, replies: &mut Vec<Reply>| {
+            for (i, s) in socks.iter().enumerate() {
+                for d in drain(s) {
+                    replies.push(Reply { sock: i, data: d, matched: None, verified: None, reason: None });
+                }
+            }
+        };
+        collect(&self.socks, &mut replies);
+        let mut extra_steps = 0;
+        while panic.is_none() && replies.len() < must && extra_steps < 3 + sent.len() / 32 {
+            if let Err(p) = self.srv.step(1) {
+                panic = Some(p);
+            }
+            extra_steps += 1;
+            collect(&self.socks, &mut replies);
+        }
+        let before_sentinel = replies.len();
         let mut sentinel_replies = 0;
         let mut sentinel_sent = 0;
         let mut sentinel_bytes = 0;
@@ -109,14 +134,10 @@ impl Driver {
             }
         }
         let t_after = SystemTime::now();
-        let mut replies = Vec::new();
-        for (i, s) in self.socks.iter().enumerate() {
-            for d in drain(s) {
-                replies.push(Reply { sock: i, data: d, matched: None, verified: None, reason: None });
-            }
-        }
+        collect(&self.socks, &mut replies);
+        let late_replies = replies.len() - before_sentinel;
         let drops_moved = self.srv.drops_moved();
-        let mut round = Round { sent, replies, panic, sentinel_replies, sentinel_sent, sentinel_bytes, sentinel_verified, t_before, t_after, drops_moved };
+        let mut round = Round { sent, replies, panic, sentinel_replies, sentinel_sent, sentinel_bytes, sentinel_verified, t_before, t_after, drops_moved, late_replies };
         if verify {
             self.match_replies(&mut round);
         }
